@@ -51,10 +51,10 @@ Section CslJust.
   Qed.
 End CslJust.
 
-Lemma asyncm_back : forall s s' T, same_acct (getc s T) (getc s' T) -> asyncm s' T -> asyncm s T.
+Lemma asyncm_back : forall s e s' T, stepr s e = Ok s' -> same_acct (getc s T) (getc s' T) -> asyncm s' T -> asyncm s T.
 Proof.
-  intros s s' T [_ _ _ _ _ A] [H1 [H2 [H3 [H4 H5]]]]. unfold asyncm, hasm, F in *.
-  rewrite (A FHasm), (A FTriedA), (A FTried1), (A FFb), (A FStFb) in * by reflexivity. auto.
+  intros s e s' T H [_ _ _ _ _ A] [H1 [H2 [H3 [H4 H5]]]]. apply (no1pc_back _ _ _ _ H) in H3. unfold asyncm, hasm, F in *.
+  rewrite (A FHasm), (A FTriedA), (A FFb), (A FStFb) in * by reflexivity. auto.
 Qed.
 
 Lemma ainv_other : forall s e s' T, linv s T -> stepr s e = Ok s' -> txn_of e <> Some T -> ainv s T -> ainv s' T.
